@@ -240,6 +240,19 @@ GROUPS = {
                    'SignedPacket::from_relay_payload', 'SignedPacket::more_recent_than', 'SignedPacket::public_key', 'SignedPacket::signature', 'SignedPacket::timestamp',
                    'SignedPacket::to_relay_payload', 'Timestamp::as_micros', 'Timestamp::from_be_bytes', 'Timestamp::from_micros', 'Timestamp::to_be_bytes', 'signable'],
     ),
+    # second line behind the Verus unit relay_codec, and the only line for the relay-to-client round trip
+    'relay_codec_bx': dict(
+        unit='relay_codec.rs', props=['C10'],
+        bounds=dict(quick=['2', '0'], thorough=['3', '0']),
+        space='client-to-relay: ping/pong with 3 payloads and datagrams for 4 ECN values x 4 segment sizes (none, 1, 1200, 65535) x 11 content lengths (1..1200 and the 6 lengths '
+              'around the size limit), each through to_bytes, encoded_len, the client sink\'s size check and the relay\'s decoder; relay-to-client under both protocol versions: '
+              'ping/pong, endpoint-gone, restarting with 4 duration pairs, datagrams (4 x 4 x up to 8 lengths incl. empty and the limit), every Status value 0..=255 (v2), '
+              '4 health texts (v1), each decoded under its own and under the other version; every byte string of at most {0} bytes, and of every valid encoding under 4000 '
+              'bytes: the first 120 truncations, 4 masks on each of the first 48 bytes, 8 replacement first bytes — through all 7 decoders',
+        nontrivial='all messages',
+        functions=['FrameType::{write_to, encoded_len, from_bytes}', 'Datagrams::{write_to, encoded_len, from_bytes}', 'Status::{write_to, encoded_len, from_bytes}',
+                   'RelayToClientMsg::{typ, to_bytes, write_to, encoded_len, from_bytes}', 'ClientToRelayMsg::{typ, to_bytes, write_to, encoded_len, from_bytes}', 'Conn::start_send'],
+    ),
     # second line behind the Verus unit builder_bind
     'builder_bind_bx': dict(
         unit='builder_bind.rs', props=['C20'],
